@@ -76,16 +76,81 @@ ReindexOK(e) ==
     [] OTHER -> FALSE
 
 Transposed(a, b) ==
-  /\ Len(b) = (IF Len(a) = 0 THEN Len(b) ELSE Len(a[1]))
   /\ \A i \in 1..Len(a) : \A j \in 1..Len(a[i]) :
        /\ j <= Len(b) /\ i <= Len(b[j]) /\ b[j][i] = a[i][j]
   /\ \A j \in 1..Len(b) : Len(b[j]) = Len(a)
+  /\ (Len(a) > 0 => Len(b) = Len(a[1]))
 
+(***************************************************************************)
+(* C10.  The mirror table: which public property of the analysis of the    *)
+(* transposed response each property of the original corresponds to.       *)
+(* "T": the two values are transposes of each other (matrices) or equal    *)
+(* (vectors, scalars).  A trace of kind "mirror" carries two snapshots     *)
+(* (base, xf): prop -> [k, v]; one event per property of the base run.     *)
+(***************************************************************************)
+MirrorTable ==
+  [ counts |-> "counts", unweighted_counts |-> "unweighted_counts",
+    table_proportions |-> "table_proportions", table_percentages |-> "table_percentages",
+    table_proportion_variances |-> "table_proportion_variances",
+    table_std_dev |-> "table_std_dev", table_std_err |-> "table_std_err",
+    table_proportions_moe |-> "table_proportions_moe",
+    table_unweighted_bases |-> "table_unweighted_bases",
+    table_weighted_bases |-> "table_weighted_bases",
+    zscores |-> "zscores", pvals |-> "pvals",
+    population_counts |-> "population_counts",
+    population_counts_moe |-> "population_counts_moe",
+    total_share_sum |-> "total_share_sum", sums |-> "sums", means |-> "means",
+    stddev |-> "stddev", medians |-> "medians",
+    table_base_range |-> "table_base_range", table_margin_range |-> "table_margin_range",
+    row_proportions |-> "column_proportions", column_proportions |-> "row_proportions",
+    row_percentages |-> "column_percentages", column_percentages |-> "row_percentages",
+    row_proportion_variances |-> "column_proportion_variances",
+    column_proportion_variances |-> "row_proportion_variances",
+    row_std_dev |-> "column_std_dev", column_std_dev |-> "row_std_dev",
+    row_std_err |-> "column_std_err", column_std_err |-> "row_std_err",
+    row_proportions_moe |-> "column_proportions_moe",
+    column_proportions_moe |-> "row_proportions_moe",
+    row_unweighted_bases |-> "column_unweighted_bases",
+    column_unweighted_bases |-> "row_unweighted_bases",
+    row_weighted_bases |-> "column_weighted_bases",
+    column_weighted_bases |-> "row_weighted_bases",
+    row_share_sum |-> "column_share_sum", column_share_sum |-> "row_share_sum",
+    rows_margin |-> "columns_margin", columns_margin |-> "rows_margin",
+    rows_base |-> "columns_base", columns_base |-> "rows_base",
+    rows_margin_proportion |-> "columns_margin_proportion",
+    columns_margin_proportion |-> "rows_margin_proportion",
+    rows_scale_mean |-> "columns_scale_mean", columns_scale_mean |-> "rows_scale_mean",
+    rows_scale_median |-> "columns_scale_median",
+    columns_scale_median |-> "rows_scale_median",
+    rows_scale_mean_stddev |-> "columns_scale_mean_stddev",
+    columns_scale_mean_stddev |-> "rows_scale_mean_stddev",
+    rows_scale_mean_stderr |-> "columns_scale_mean_stderr",
+    columns_scale_mean_stderr |-> "rows_scale_mean_stderr",
+    rows_scale_mean_margin |-> "columns_scale_mean_margin",
+    columns_scale_mean_margin |-> "rows_scale_mean_margin",
+    rows_scale_median_margin |-> "columns_scale_median_margin",
+    columns_scale_median_margin |-> "rows_scale_median_margin",
+    row_labels |-> "column_labels", column_labels |-> "row_labels",
+    row_aliases |-> "column_aliases", column_aliases |-> "row_aliases",
+    row_codes |-> "column_codes", column_codes |-> "row_codes",
+    inserted_row_idxs |-> "inserted_column_idxs", inserted_column_idxs |-> "inserted_row_idxs",
+    diff_row_idxs |-> "diff_column_idxs", diff_column_idxs |-> "diff_row_idxs",
+    row_order |-> "column_order", column_order |-> "row_order",
+    rows_dimension_name |-> "columns_dimension_name",
+    columns_dimension_name |-> "rows_dimension_name",
+    rows_dimension_type |-> "columns_dimension_type",
+    columns_dimension_type |-> "rows_dimension_type" ]
+
+MirrorPairOK(b, x) ==
+  /\ b.k = x.k
+  /\ IF b.k = "mat" THEN Transposed(b.v, x.v) ELSE b.v = x.v
+
+\* event e names a property of the base snapshot
 MirrorOK(e) ==
-  CASE e.op = "scalar" -> e.xf = e.base
-    [] e.op = "vec"    -> e.xf = e.base
-    [] e.op = "mat"    -> Transposed(e.base, e.xf)
-    [] OTHER -> FALSE
+  LET p == e.prop IN
+  IF p \in DOMAIN MirrorTable /\ MirrorTable[p] \in DOMAIN Tr.xf
+  THEN MirrorPairOK(Tr.base[p], Tr.xf[MirrorTable[p]])
+  ELSE TRUE       \* no counterpart recorded: nothing to relate
 
 EvOK(e) == IF Tr.rel = "mirror" THEN MirrorOK(e) ELSE ReindexOK(e)
 
